@@ -15,7 +15,7 @@ RULE = (
     "iteration checked + distinct constructor power values"
 )
 REQUIRED = {"iter_memoryless": 300, "iter_first_with_memory": 30, "iter_convex": 300, "constructor_refused": 10, "constructor_accepted": 10,
-            "burn_in_len_checks": 50, "reruns_of_same_algorithm_object": 5}
+            "burn_in_len_checks": 50, "reruns_of_same_algorithm_object": 5, "burn_in_len_grid_checks": 6000, "reconfigured_algorithm_objects": 5}
 ASSUMPTIONS = [
     "n_burn_in from a fraction: both int(frac*n_iter) in floating point and the exact rational floor are accepted (the statement does not pin "
     "float rounding of the product)",
@@ -87,7 +87,17 @@ def run_shard(spec, ctx):
 
             with _w.catch_warnings():
                 _w.simplefilter("ignore")
-                algo, probe = fit_with_probe(model, ds, settings)
+                reconf = None
+                if mode == "count" and (spec["k"] + i) % 3 == 1:
+                    # the algorithm object is created with other values and reconfigured through `load_parameters` before it runs: the
+                    # schedule must follow the values in force when it runs
+                    reconf = {"n_burn_in_iter": settings["n_burn_in_iter"], "burn_in_step_power": power}
+                    first = dict(settings, n_burn_in_iter=int(rng.integers(0, n_iter + 1)), burn_in_step_power=float(rng.choice([0.55, 0.7, 0.95])))
+                    ctx.count("reconfigured_algorithm_objects")
+                    case["constructed_with"] = {k: first[k] for k in ("n_burn_in_iter", "burn_in_step_power")}
+                    algo, probe = fit_with_probe(model, ds, first, reconfigure=reconf)
+                else:
+                    algo, probe = fit_with_probe(model, ds, settings)
                 first_len = len(probe.records)
                 if rerun:
                     from vf.probes.algo import MStepProbe
@@ -233,3 +243,43 @@ def _ctor(spec, ctx):
         ctx.count("constructor_accepted" if accepted else "constructor_refused")
         ctx.distinct("ctor", p)
     ctx.sample({"powers_tried": powers[:12]}, limit=1)
+    # length of the memory-less phase resolved at construction, over a dense (fraction, n_iter) grid: the configured fraction of the
+    # iterations (floor; int() of the float product also accepted), or the explicit count whatever the fraction
+    import math
+    import warnings
+    from fractions import Fraction
+
+    n_checked = 0
+    for pct in range(0, 101):
+        for n_iter in list(range(1, 61)) + [75, 100, 120, 200, 250, 1000]:
+            frac = pct / 100.0
+            allowed = {int(frac * n_iter), math.floor(Fraction(frac) * n_iter), math.floor(Fraction(pct, 100) * n_iter)}
+            with warnings.catch_warnings():
+                warnings.simplefilter("ignore")
+                try:
+                    a = algorithm_factory(AlgorithmSettings("mcmc_saem", n_iter=n_iter, n_burn_in_iter_frac=frac, progress_bar=False))
+                except LeaspyAlgoInputError as e:
+                    ctx.violation("sa/admissible-configuration-refused", f"n_iter={n_iter}, n_burn_in_iter_frac={frac} refused: {str(e)[:100]}", {"index": pct * 1000 + n_iter})
+                    continue
+            got = a.algo_parameters["n_burn_in_iter"]
+            n_checked += 1
+            if got not in allowed:
+                ctx.violation("sa/burn-in-length", f"n_iter={n_iter}, n_burn_in_iter_frac={frac}: memory-less phase resolved to {got}, the configured fraction gives {sorted(allowed)}",
+                              {"index": pct * 1000 + n_iter, "n_iter": n_iter, "frac": frac})
+    for n_iter in (1, 7, 40, 100):
+        for count in (0, 1, n_iter // 2, n_iter, n_iter + 5):
+            for frac in (None, 0.3, 0.9):
+                with warnings.catch_warnings():
+                    warnings.simplefilter("ignore")
+                    try:
+                        a = algorithm_factory(AlgorithmSettings("mcmc_saem", n_iter=n_iter, n_burn_in_iter=count, n_burn_in_iter_frac=frac, progress_bar=False))
+                    except LeaspyAlgoInputError as e:
+                        ctx.violation("sa/admissible-configuration-refused", f"explicit count {count} (fraction {frac}) refused: {str(e)[:100]}", {"index": -1, "n_iter": n_iter, "count": count, "frac": frac})
+                        continue
+                n_checked += 1
+                if a.algo_parameters["n_burn_in_iter"] != count:
+                    ctx.violation("sa/burn-in-length", f"explicit count {count} (fraction {frac}, n_iter {n_iter}) resolved to {a.algo_parameters['n_burn_in_iter']}",
+                                  {"index": -1, "n_iter": n_iter, "count": count, "frac": frac})
+    ctx.count("burn_in_len_grid_checks", n_checked)
+    ctx.evaluated(n_checked)
+    ctx.distinct_add(n_checked)
